@@ -15,6 +15,7 @@ Directives (each on its own line):
   //@fn <file> <[Type::]name> [props=C01,C02] [stub] [ret=r] [impl=<Trait for Type>]
       ... contract lines (requires/ensures/decreases, copied verbatim after the signature) ...
       //@@loop <n> [iter=<ident>]       following lines are the loop's invariant/decreases clauses
+      //@@bodyend_of_loop <n>           following lines (proof block) are inserted at the end of loop n's body
       //@@at <before|after|bodystart|bodyend> "<anchor text>"    following lines are inserted there (proof blocks)
       //@@rewrite "<from>" => "<to>"    listed textual rewrite of the body (reported in evidence)
       //@@finding <ID>                following lines (a `proof { assume(..); }`) are inserted at body start ONLY in
@@ -584,6 +585,14 @@ def extract_fn(repo, rel, qualname, contract_lines, loops, ats, rewrites, stub=F
         head = re.sub(r'\bfn\s+' + re.escape(name) + r'\b', 'fn ' + emit_as, head, count=1)
         vis = 'pub '
         rec['emitted_as'] = emit_as
+        # R10 (cont.): `Self::Error` of the trait impl is its associated type; an inherent method has to name that type
+        if ret is not None and 'Self::Error' in ret:
+            blk_start = src.rfind('impl', 0, m.start())
+            am = re.search(r'type\s+Error\s*=\s*([^;]+);', src[blk_start:m.start()])
+            if not am:
+                raise ExtractError("R10: cannot resolve Self::Error for %s" % qualname)
+            ret = ret.replace('Self::Error', am.group(1).strip())
+            rec['self_error_resolved_to'] = am.group(1).strip()
     if stub:
         out.append('#[verifier::external_body]')
     for at in attrs:
@@ -627,6 +636,9 @@ def extract_fn(repo, rel, qualname, contract_lines, loops, ats, rewrites, stub=F
         kw, ki, oi = lps[idx]
         spec = loops[idx]
         clauses = '\n' + '\n'.join(spec['lines']) + '\n'
+        if spec.get('endlines'):
+            ce_ = match_close(body, oi, '{', '}')
+            body = body[:ce_] + '\n'.join(spec['endlines']) + '\n' + body[ce_:]
         if kw == 'for' and spec.get('manual'):
             body = manual_loop(body, ki, oi, spec['manual'], clauses, qualname)
         elif kw == 'for' and spec.get('iter'):
@@ -1116,9 +1128,15 @@ def process_template(template_path, repo_root, include_dirs=(), restrict=()):
                 if t.startswith('//@@loop'):
                     tk2 = t.split()
                     kv2, _ = parse_kv(tk2[2:])
-                    spec = {'lines': [], 'iter': kv2.get('iter'), 'manual': kv2.get('manual')}
+                    spec = {'lines': [], 'iter': kv2.get('iter'), 'manual': kv2.get('manual'), 'endlines': []}
                     loops[int(tk2[1])] = spec
                     cur = spec['lines']
+                elif t.startswith('//@@bodyend_of_loop'):
+                    # //@@bodyend_of_loop N : following lines (a proof block) go to the END of loop N's body
+                    nloop = int(t.split()[1])
+                    if nloop not in loops:
+                        raise ExtractError("//@@bodyend_of_loop %d before //@@loop %d" % (nloop, nloop))
+                    cur = loops[nloop]['endlines']
                 elif t.startswith('//@@at') and not t.startswith('//@@attr'):
                     mm = re.match(r'//@@at\s+(before|after|bodystart|bodyend)(?:\s+"(.*)")?\s*$', t)
                     if not mm:
